@@ -17,7 +17,12 @@ from models import model, rx, REG, _opt_loc, self_loc, atomic_begin, atomic_end,
 from rtypes import parse_type
 
 
-def kcap(tr):
+def kcap(tr, kty=None):
+    if kty is not None:
+        nm = kty.name if getattr(kty, "kind", "") == "path" else None
+        caps = tr.cfg.get("key_caps", {})
+        if nm in caps:
+            return caps[nm]
     return tr.cfg.get("key_cap", 2)
 
 
@@ -54,7 +59,7 @@ def bound_key(tr, k: str, cap: int, what: str) -> str:
 
 # ------------------------------------------------------------------------------------------------ types
 def t_dashmap(tr, ty, name, dims, storage, g):
-    cap = kcap(tr)
+    cap = kcap(tr, ty.args[0] if ty.args else None)
     s = StructN(ty, name, dims, storage, "DashMap")
     a = ArrN(None, name + "_slots", dims, storage, cap)
     m = StructN(None, name + "_s", dims + [cap], storage, "Mutex")
@@ -108,7 +113,7 @@ def t_brange(tr, ty, name, dims, storage, g):
 
 def t_kmap(tr, ty, name, dims, storage, g):
     """HashMap<K, V> keyed through the key function of K"""
-    cap = kcap(tr)
+    cap = kcap(tr, ty.args[0] if ty.args else None)
     s = StructN(ty, name, dims, storage, "KMap")
     p = ArrN(None, name + "_present", dims, storage, cap)
     p.elem = ScalarN(None, name + "_p", dims + [cap], storage, "_Bool")
@@ -127,7 +132,7 @@ def t_kmap(tr, ty, name, dims, storage, g):
 
 
 def t_kmapiter(tr, ty, name, dims, storage, g):
-    cap = kcap(tr)
+    cap = kcap(tr, ty.args[0] if ty is not None and ty.args else None)
     s = StructN(ty, name, dims, storage, "KMapIter")
     s.fields.append(RefN(None, name + "_map", dims, storage))
     s.names.append("map")
@@ -142,7 +147,7 @@ def t_kmapiter(tr, ty, name, dims, storage, g):
 
 def t_kset(tr, ty, name, dims, storage, g):
     """HashSet<K> for a keyed K: presence bitmap + the key values (so iteration can hand out &K)"""
-    cap = kcap(tr)
+    cap = kcap(tr, ty.args[0] if ty.args else None)
     s = StructN(ty, name, dims, storage, "Set")
     a = ArrN(None, name + "_present", dims, storage, cap)
     a.elem = ScalarN(None, name + "_p", dims + [cap], storage, "_Bool")
